@@ -76,6 +76,18 @@ Step ==
               IN  /\ Matches(m1, e.post, ix.version)
                   /\ ix' = Adopt(m1, e.post)
          [] e.ev = "close" -> ix' = DropCaches(ix, e.f)
+         [] e.ev = "evict" -> ix' = DropCaches(ix, e.f)       \* one victim of evict_cache_if_needed (mod.rs:336-343)
+         [] e.ev = "refs" ->
+              \* find_references_for_definition of the definition recorded at (e.f, e.idx) under name e.n
+              LET cands == { j \in 1..Len(ix.defs[e.n]) : ix.defs[e.n][j].file = e.f /\ ix.defs[e.n][j].idx = e.idx }
+              IN  /\ cands # {}
+                  /\ LET r == ix.defs[e.n][CHOOSE j \in cands : TRUE]
+                         s == ImplRefsSeq(ix, AllDevs, r)
+                     IN  SameBag([j \in 1..Len(s) |-> [file |-> s[j].file, idx |-> s[j].idx, uk |-> s[j].uk, ui |-> s[j].ui]], e.ans)
+                  /\ ix' = ix
+         [] e.ev = "unused" ->
+              /\ ImplUnused(ix, AllDevs) = RangeOf(e.ans)
+              /\ ix' = ix
          [] e.ev = "goto" ->
               \* find_fixture_definition at the logged usage (self-named fixture parameters resolve outward)
               LET r == ImplGotoAtM(ix, AllDevs, ix.impC, UseRec(e.f, e.idx, "p", e.ui, e.n))
